@@ -53,6 +53,13 @@ add("C34", "codec", "exploration", "runtime monitor: metamorphic relation (four 
     "Random reference-bearing formulas in six language/locale pairs; every cursor position and every selection of short texts; four successive cycles each.",
     CODEC_NOTE)
 
+add("C19", "codec", "exploration", "runtime monitor: three-valued reference recogniser (MUST / MUST-NOT / silent) against the real cell-input path, bounded-exhaustive over a numeric alphabet",
+    "All strings up to length 4 (quick) or 5 (thorough) over the characters that matter, in six locales, typed into fresh cells of a real Model; stored type, value and format kind are compared with the recogniser's verdict.",
+    CODEC_NOTE)
+add("C20", "codec", "exploration", "runtime monitor: differential check of format_number against an independent decimal-string formatter",
+    "Random (number, format, locale) triples concentrated on exact ties, one-ulp neighbours, 2^53, tiny and huge magnitudes; the reference works on decimal digits only.",
+    CODEC_NOTE)
+
 NOT_YET = {}
 
 def main():
